@@ -134,7 +134,7 @@ def run(ctx):
     for size, n in big:
         rs.append(random_script(rng, "log", size, rng.choice([0, 2]), 0, n))
         rs.append(random_script(rng, "icpt", size, rng.choice([0, 2]), rng.choice([0, 2]), n))
-    run_batch(ctx, rs, "T-random")
+    run_batch(ctx, [vlib.remap_ids(sc, rng.choice(vlib.SSRC_TABLES)) for sc in rs], "T-random")
     ctx.assumptions += [
         "the TLA+ module NackGen is the reading of the property (window = the `size` numbers up to the highest received; "
         "a wire number denotes the true number nearest to the highest, ties late; packets outside the window have no effect)",
